@@ -17,7 +17,7 @@ from nflows.transforms.base import InverseNotAvailable
 
 PROPERTY = "C14"
 RULE = (
-    "subjects {ActNorm on [B,F], ActNorm on [B,C,H,W], BatchNorm on [B,F], ActNorm / BatchNorm inside a CompositeTransform (driven, saved and loaded through the parent)} x ALL histories of length <=5 (thorough <=7) over the 6-letter alphabet "
+    "subjects {ActNorm on [B,F], ActNorm on [B,C,H,W], BatchNorm on [B,F], ActNorm / BatchNorm inside a CompositeTransform (driven, saved and loaded through the parent), ActNorm on batches in units of 1e-4} x ALL histories of length <=5 (thorough <=7) over the 6-letter alphabet "
     "{train, eval, fwd(b1), fwd(b2), inv(b1), saveload (state dict into a freshly constructed instance, continue on the copy)} with two fixed batches of different statistics; "
     "plus BFS over the exact concrete state for ActNorm until no new state appears. Non-trivial = the history contains a training-mode forward followed by at least one more observing step."
 )
@@ -28,7 +28,7 @@ ASSUMPTIONS = [
 ]
 
 SIGMA = ("train", "eval", "fwd1", "fwd2", "inv1", "saveload")
-SUBJECTS = ("ActNorm2d", "ActNorm4d", "BatchNorm", "ActNorm2d+nested", "BatchNorm+nested")  # +nested: the layer sits inside a CompositeTransform and is driven, saved and loaded through it
+SUBJECTS = ("ActNorm2d", "ActNorm4d", "BatchNorm", "ActNorm2d+nested", "BatchNorm+nested", "ActNorm2d:tiny", "ActNorm4d:tiny")  # :tiny = batches in units of 1e-4 (per-feature std far below 1e-3)  # +nested: the layer sits inside a CompositeTransform and is driven, saved and loaded through it
 MOM, EPS = 0.25, 1e-3
 
 
@@ -37,19 +37,21 @@ def bounds(tier, seed):
 
 
 def batches(subj):
-    if subj == "ActNorm4d":
+    if subj.startswith("ActNorm4d"):
         b1 = pat_tensor((3, 2, 2, 2), 2, 1.5) + 0.7
         b2 = pat_tensor((4, 2, 2, 2), 3, 0.6) - 1.1
     else:
         b1 = pat_tensor((4, 3), 2, 1.5) + 0.7
         b2 = pat_tensor((5, 3), 3, 0.6) - 1.1
+    if subj.endswith(":tiny"):
+        b1, b2 = b1 * 1e-4, b2 * 1e-4
     return {"1": b1, "2": b2}
 
 
 def fresh(subj, seed=0):
     torch.manual_seed(seed)
     if subj.startswith("ActNorm"):
-        m = T.ActNorm(2 if subj == "ActNorm4d" else 3)
+        m = T.ActNorm(2 if subj.startswith("ActNorm4d") else 3)
     else:
         m = T.BatchNorm(3, eps=EPS, momentum=MOM)
         with torch.no_grad():
@@ -286,7 +288,7 @@ def units(tier, seed):
         for first2 in itertools.product(SIGMA, repeat=2):
             us.append(("hist", subj, first2, depth))
         us.append(("short", subj))
-        if subj.startswith("ActNorm") and not subj.endswith("+nested"):
+        if subj.startswith("ActNorm") and "+" not in subj and ":" not in subj:
             us.append(("bfs", subj))
     return us
 
